@@ -1013,3 +1013,55 @@ Proof.
   { unfold handle_offer. rewrite He, Ht, Hw. cbn [negb]. eapply F5_store_refresh_found; eauto. }
   rewrite (f5_up _ F id a s Hid), Hr, (offer_recorded X e a s w Hg H5 He Ht Hw s (fkey_refl s)). reflexivity.
 Qed.
+
+(* ------------------------------------------------------------------ convergence step: a NEW offer makes the auto-subscribe listener subscribe *)
+Lemma sub_entries_lst off l s a w x : In x (sub_entries w) -> off = true -> In x (sub_entries (lst off l s a w)).
+Proof.
+  intros Hin ->. destruct l as [id|g]; cbn [lst listener_offered]; [exact Hin|].
+  destruct (for_service g s) as [g'|]; [|exact Hin]. unfold subscribe_eventgroup.
+  destruct (sub_alive _); cbn [call_soon sub_entries set_ready set_sub_entries]; apply in_app_iff; left; exact Hin.
+Qed.
+Lemma sub_entries_lst_adds g g' s a w : for_service g s = Some g' -> In (g', a) (sub_entries (lst true (LAuto g) s a w)).
+Proof.
+  intros Hf. cbn [lst listener_offered]. rewrite Hf. unfold subscribe_eventgroup.
+  destruct (sub_alive _); cbn [call_soon sub_entries set_ready set_sub_entries]; apply in_app_iff; right; left; reflexivity.
+Qed.
+Lemma sub_entries_fold s a x : forall ls w, In x (sub_entries w) -> In x (sub_entries (fold_left (fun acc l => lst true l s a acc) ls w)).
+Proof. induction ls as [|l ls IH]; intros w Hin; cbn [fold_left]; [exact Hin|]. apply IH. apply sub_entries_lst; [exact Hin|reflexivity]. Qed.
+Lemma sub_entries_fold_adds g g' s a : for_service g s = Some g' -> forall ls w, In (LAuto g) ls ->
+  In (g', a) (sub_entries (fold_left (fun acc l => lst true l s a acc) ls w)).
+Proof.
+  intros Hf. induction ls as [|l ls IH]; intros w Hin; [destruct Hin|]. cbn [fold_left]. destruct Hin as [->|Hin].
+  - apply sub_entries_fold. apply sub_entries_lst_adds. exact Hf.
+  - apply IH, Hin.
+Qed.
+Lemma notify_offered_subscribes g g' s a f ls w : for_service g s = Some g' ->
+  In (f, ls) (watched w) -> matches_service f s = true -> In (LAuto g) ls ->
+  In (g', a) (sub_entries (notify_service (lst true) s a w)).
+Proof.
+  intros Hf Hin Hm Hl. unfold notify_service.
+  assert (H1 : forall l acc, (In (f, ls) l \/ In (g', a) (sub_entries acc)) ->
+             In (g', a) (sub_entries (fold_left (fun acc0 p => if matches_service (fst p) s then fold_left (fun acc2 l0 => lst true l0 s a acc2) (snd p) acc0 else acc0) l acc))).
+  { induction l as [|p l IH]; intros acc H; cbn [fold_left]; [destruct H as [[]|H]; exact H|]. apply IH.
+    destruct H as [[->|H]|H].
+    - right. cbn [fst snd]. rewrite Hm. apply (sub_entries_fold_adds g g' s a Hf). exact Hl.
+    - left. exact H.
+    - right. destruct (matches_service (fst p) s); [apply sub_entries_fold; exact H|exact H]. }
+  apply sub_entries_fold. apply H1. left. exact Hin.
+Qed.
+(* an Offer (TTL > 0) for a service not yet stored from that source, with an auto-subscribe listener registered for it:
+   afterwards the client subscriber holds the subscription entry for (eventgroup, source) - the next round (or the
+   HSendStartSub queued at once when the subscriber is running) sends the Subscribe *)
+Theorem new_offer_subscribes e a s w g g' f ls : from_offer_entry e = Ok s -> (e_ttl e =? 0) = false -> is_watching e w = true ->
+  aget key_eqb (KService s) (inner a (found w)) = None ->
+  for_service g s = Some g' -> In (f, ls) (watched w) -> matches_service f s = true -> In (LAuto g) ls ->
+  In (g', a) (sub_entries (handle_offer e a w)).
+Proof.
+  intros He Ht Hw Hn Hf Hin Hm Hl. unfold handle_offer. rewrite He, Ht, Hw. cbn [negb].
+  rewrite store_refresh_unfold. cbv zeta. cbn [get_store]. rewrite inner_touch, Hn.
+  change listener_offered with (lst true).
+  set (w1 := notify_service (lst true) s a (put_store SFound (touch a (found w)) w)).
+  assert (H1 : In (g', a) (sub_entries w1)) by (unfold w1; eapply notify_offered_subscribes; eauto).
+  unfold refresh_tail. cbv zeta. destruct (e_ttl e =? TTL_FOREVER); cbn [fst]; [exact H1|].
+  unfold call_later. cbn [fst]. exact H1.
+Qed.
